@@ -113,6 +113,9 @@ def attn_case():
       'heads': st.integers(1, 3), 'hd': st.integers(1, 3),
       'feat': st.integers(1, 4), 'T': st.integers(1, 5),
       'batch': st.lists(st.integers(1, 2), min_size=1, max_size=2),
+      # tokens of an earlier sequence decoded on the same module before the
+      # cache is initialised again for the sequence that is checked
+      'prefix': st.sampled_from([0, 0, 1, 2, 5]),
       'seed': st.integers(0, 2**16)})
 
 
@@ -121,7 +124,9 @@ def attn_case():
         rule='MultiHeadDotProductAttention(decode=True) (Linen cache '
         'collection) and nnx.MultiHeadAttention.init_cache: feeding T tokens '
         'one at a time gives the outputs of one causal-masked call on the '
-        'whole sequence, and the cache index ends at T; non-trivial = T>=3')
+        'whole sequence, and the cache index ends at T, also when the NNX '
+        'module decoded 1-5 tokens of another sequence before init_cache '
+        'was called again; non-trivial = T>=3')
 def decode_vs_full(case, ctx):
   rng = np.random.default_rng(case['seed'])
   H, hd, F, T = case['heads'], case['hd'], case['feat'], case['T']
@@ -161,6 +166,13 @@ def decode_vs_full(case, ctx):
                                    decode=True, rngs=nnx.Rngs(0), **dt)
       nnx.update(dec, nnx.state(full, nnx.Param))
       dec.init_cache(x.shape, dtype=jnp.float64)
+      pre = min(case.get('prefix', 0), T)
+      if pre:
+        x_old = jnp.asarray(rnd(rng, b + (T, F)))
+        for t in range(pre):
+          dec(x_old[..., t:t + 1, :])
+        # a new sequence on the same module starts with a fresh cache
+        dec.init_cache(x.shape, dtype=jnp.float64)
       y_full = full(x, mask=causal)
       ys = [dec(x[..., t:t + 1, :]) for t in range(T)]
     idx = int(np.asarray(dec.cache_index.value))
@@ -169,7 +181,9 @@ def decode_vs_full(case, ctx):
           'the causal-masked whole-sequence call; max diff '
           f'{np.max(np.abs(np.asarray(y_dec) - np.asarray(y_full)))}')
   require(idx == T, f'cache index {idx} after {T} tokens')
-  ctx.note(labels=[case['api'], f'T{T}'], nontrivial=T >= 3)
+  ctx.note(labels=[case['api'], f'T{T}'] + (
+      ['reinit-cache'] if case['api'] == 'nnx' and case.get('prefix') else []),
+           nontrivial=T >= 3)
 
 
 # ----------------------------------------------------------------------------
